@@ -131,8 +131,8 @@ def rand_array(rng, shape, rg):
 
 def gen_models(rng, tier):
     cases = []
-    per_model = 6 if tier == 'quick' else 90
-    grads_per_model = 2 if tier == 'quick' else 24
+    per_model = 6 if tier == 'quick' else 200
+    grads_per_model = 2 if tier == 'quick' else 40
     for name, (_, _, params, attrs, timelike) in MODELS.items():
         rg = RANGES[name]
         for k in range(per_model + grads_per_model):
@@ -334,7 +334,7 @@ def descr_models(c):
 # output shape against the Coq model of the implementation's shape computation (vm_compute)
 def gen_shape(rng, tier):
     cases = []
-    for _ in range(50 if tier == 'quick' else 1000):
+    for _ in range(50 if tier == 'quick' else 2000):
         name = rng.choice(list(MODELS) + ['TSS', 'TSS', 'TSS'])
         rank = rng.randint(0, 4)
         pshape = [rng.randint(1, 3) for _ in range(rank)]
@@ -435,7 +435,7 @@ def bounds_of(kind, rng):
 
 def gen_constraints(rng, tier):
     cases = []
-    n = 30 if tier == 'quick' else 600
+    n = 30 if tier == 'quick' else 1200
     for i in range(n):
         kind = KINDS[i % len(KINDS)] if i < 2 * len(KINDS) else rng.choice(KINDS)
         # the default steepness 1.0 hides errors that cancel at beta = 1: use beta = 1 rarely
